@@ -22,7 +22,15 @@ BASES = {
     "ortho": dict(nv=5, nq=2, na=2, lattice="power", system="orthorhombic", compset="minimal", static="generic", weights="equal",
                   interpolator="spline", order=3,
                   qha=dict(T_MIN=0, NT=3, DT=400, DT_SAMPLE=400, NTV=27, DELTA_P=1.0, DELTA_P_SAMPLE=1.0)),
+    # a dense q-mesh (beyond any chunk size an implementation might use): 300 q-points x 3 modes
+    "dense": dict(nv=5, nq=300, na=1, lattice="none", system="cubic", compset="minimal", static="cubicfit", weights="increasing",
+                  qha=dict(T_MIN=0, NT=2, DT=900, DT_SAMPLE=900, NTV=21, DELTA_P=2.0, DELTA_P_SAMPLE=2.0)),
 }
+# the volume-block clause is checked for every documented interpolator (node-based ones sub-sample the volumes by position)
+for _m, _o in (("lagrange", 3), ("krogh", 2), ("pchip", 3), ("akima", 3), ("hermite", 2), ("lsq_poly", 2), ("spline", 2)):
+    BASES["vb-" + _m] = dict(nv=5, nq=2, na=1, lattice="none", system="cubic", compset="minimal", static="cubicfit", weights="increasing",
+                             interpolator=_m, order=_o, qha=dict(T_MIN=0, NT=2, DT=900, DT_SAMPLE=900, NTV=21, DELTA_P=2.0, DELTA_P_SAMPLE=2.0))
+
 
 
 def observe(d):
@@ -39,7 +47,7 @@ def observe(d):
     return out
 
 
-@functools.lru_cache(maxsize=8)
+@functools.lru_cache(maxsize=16)
 def base_observation(name):
     spec = BASES[name]
     with K.scratch() as d:
@@ -133,6 +141,23 @@ def run_case(case):
 def transformations(name, quick):
     spec = BASES[name]
     nq, na, nv = spec["nq"], spec["na"], spec["nv"]
+    if name.startswith("vb-"):
+        vb = list(itertools.permutations(range(nv)))
+        if quick:
+            ident = list(range(nv))
+            vb = [tuple(ident[:i] + [ident[i + 1], ident[i]] + ident[i + 2:]) for i in range(nv - 1)] + [tuple(ident[::-1])] + \
+                 [tuple(ident[i:] + ident[:i]) for i in range(1, nv)] + [(4, 2, 0, 3, 1), (0, 1, 2, 4, 3)]
+        return [{"kind": "vblocks", "perm": list(p)} for p in vb if list(p) != list(range(nv))]
+    if name == "dense":
+        n = nq - 1
+        ident = list(range(n))
+        qs = [ident[::-1], ident[1:] + ident[:1], ident[100:] + ident[:100], ident[:254] + [ident[255], ident[254]] + ident[256:],
+              ident[:63] + [ident[64], ident[63]] + ident[65:], ident[:127] + [ident[128], ident[127]] + ident[129:]]
+        out = [{"kind": "qperm", "perm": p} for p in qs]
+        out += [{"kind": "mperm", "q": q, "perm": [2, 1, 0]} for q in (1, 63, 64, 127, 128, 255, 256, 299)]
+        out += [{"kind": "mperm", "q": q, "perm": [1, 2, 0]} for q in (64, 128, 256)]
+        out += [{"kind": "wscale", "factor": 7.5}]
+        return out
     npm = 3 * na
     ncol = len(synth.INDEPENDENT[spec["system"]])
     out = []
@@ -173,7 +198,9 @@ def transformations(name, quick):
 
 
 def explore(ctx):
-    ctx.rule = ("3 base data sets (monoclinic 13 columns / cubic 3 columns / orthorhombic 9 columns with spline interpolation); "
+    ctx.rule = ("3 base data sets (monoclinic 13 columns / cubic 3 columns / orthorhombic 9 columns with spline interpolation), a dense "
+                "300-q-point set (reversal, rotations, swaps around positions 64/128/256, mode orders at those q-points) and one small set per "
+                "documented interpolator for the volume-block clause; "
                 "re-presentations: all orders of q-points 2..n with weights, mode orders within each q-point (all n! in thorough, "
                 "generators = adjacent transpositions, reversal, rotations in quick; at Gamma only the optical modes move), weight "
                 "scale x0.01/x7.5/x1000, static column orders (all for 3 columns; transpositions+rotations+reversal for 9/13), upper "
